@@ -3,11 +3,12 @@
 Require Extraction.
 Require ExtrOcamlBasic.
 From Coq Require Import List NArith String.
-From TG.Gen Require Import GenTokens GenLexTables.
-From TG.Model Require Import Chars Lexer Prep.
+From TG.Gen Require Import GenTokens GenLexTables GenGrammar.
+From TG.Model Require Import Chars Lexer Prep Tree ParserPrims GInterp.
 
 Extraction Language OCaml.
 Extraction "extract/syntax_core.ml"
   tk_index sk_index tk_name sk_name bytes
   lex_text lex_err_msg
-  prep_text any_err_msg.
+  prep_text any_err_msg
+  parse_with grammar_prog grammar_entry tree_len nlex nstart.
